@@ -322,7 +322,8 @@ class C10(Check):
             if b"Could not allocate" in rr.out + rr.err:
                 # the filesystem filled up: which of the remaining commands were refused is not modelled
                 o.stats["outside.filesystem_full"] += 1
-                break
+                o.trace = hashlib.sha256("".join(traces).encode()).hexdigest()
+                return o
             if b < nb and spec["fsck_D"][b] and "dir_index" in cfg["features"]:
                 rf, _c = e2fsck(img, ["-fyD"], wd, tag="D%d" % b, clock=clock, problems=False, keep_log=True)
                 traces.append(log_hash(rf.events))
